@@ -435,11 +435,14 @@ func tryWitness(L *Loaded, o *Oblig) *ReplayResult {
 		}
 		out, _ := runOverlayTest(L, pkg, src)
 		res := &ReplayResult{TestSource: src, Output: out, Pkg: pkg, Mode: "witness-pool (" + filepath.Base(m) + ")"}
-		if strings.Contains(out, "REPLAY-PANIC:") || strings.Contains(out, "REPLAY-POST-FALSE") {
+		if strings.Contains(out, "REPLAY-PANIC:") || strings.Contains(out, "REPLAY-POST-FALSE") || strings.Contains(out, "WARNING: DATA RACE") {
 			res.Reproduced = true
 			l := firstLineContaining(out, "REPLAY-PANIC:")
 			if l == "" {
 				l = firstLineContaining(out, "REPLAY-POST-FALSE")
+			}
+			if l == "" {
+				l = "the Go race detector reports: " + firstLineContaining(out, "WARNING: DATA RACE") + " (" + firstLineContaining(out, "Write at") + firstLineContaining(out, "Read at") + ")"
 			}
 			res.Summary = "reproduced on the real code with a witness-pool input: " + l
 			return res
@@ -574,6 +577,12 @@ func firstLineContaining(s, sub string) string {
 
 // runOverlayTest injects src as an in-package test through -overlay and runs it.
 func runOverlayTest(L *Loaded, pkgPath, src string) (string, error) {
+	extra := []string{}
+	for _, ln := range strings.Split(src, "\n") {
+		if strings.HasPrefix(ln, "// go-test-flags: ") {
+			extra = append(extra, strings.Fields(strings.TrimPrefix(ln, "// go-test-flags: "))...)
+		}
+	}
 	dir, err := os.MkdirTemp("", "govc-replay")
 	if err != nil {
 		return "", err
@@ -595,7 +604,9 @@ func runOverlayTest(L *Loaded, pkgPath, src string) (string, error) {
 	if rel == "" {
 		target = "."
 	}
-	cmd := exec.CommandContext(ctx, "go", "test", "-overlay", ovFile, "-vet=off", "-count=1", "-timeout", "60s", "-run", "^TestVerifReplay$", "-v", target)
+	args := append([]string{"test", "-overlay", ovFile, "-vet=off", "-count=1", "-timeout", "60s", "-run", "^TestVerifReplay$", "-v"}, extra...)
+	args = append(args, target)
+	cmd := exec.CommandContext(ctx, "go", args...)
 	cmd.Dir = L.repoDir
 	var env []string
 	for _, e := range os.Environ() {
